@@ -93,13 +93,40 @@ def generate(tier, seed):
             for dl in (dels if tier != "quick" else rnd.sample(dels, 3)):
                 cases.append(case("eng", sp, adapter_M(lines), "-", q + [dl] + q))
                 dist["exhaustive_small"] += 1
+    # names whose CONCATENATIONS coincide (ann+a_team = anna+_team = an+na_team; with a domain also team+d1 = tea+md1): a
+    # decision for one (user, role) pair must never be answered from what was learnt about another pair (link caches keyed by a
+    # digest of the names); the decisions are asked in both orders, before and after the role listings
+    dist["colliding_names"] = 0
+    US, RS = ["ann", "anna", "an"], ["a_team", "_team", "na_team"]
+    upairs = [(u, r) for u in US for r in RS]
+    for dom in (False, True):
+        d = K["rbac_dom" if dom else "rbac"]
+        sp = spec_of(d)
+        dm = "d1" if dom else "-"
+        dd = ["d1"] if dom else []
+        sets = [ls for k in (1, 2) for ls in itertools.combinations(upairs, k)]
+        if tier == "quick":
+            sets = rnd.sample(sets, 20)
+        for ls in sets:
+            lines = [["g", "g", a, b] + dd for a, b in ls] + [["p", "p", r] + dd + PERMS[i] for i, r in enumerate(RS)]
+            if dom:
+                lines += [["g", "g", "ann", "a_tea", "md1"], ["p", "p", "a_tea", "md1"] + PERMS[0]]
+            es = [Q_e([u] + dd + pm) for u in US for pm in PERMS]
+            if dom:
+                es += [Q_e(["ann", "md1"] + PERMS[0]), Q_e(["ann", "d1"] + PERMS[0])]
+            lst = []
+            for u in US:
+                lst += ["?ir:%s:%s" % (u, dm), "?ip:%s:%s" % (u, dm), "?rf:%s:%s" % (u, dm)]
+            for order in (es, list(reversed(es))):
+                cases.append(case("eng", sp, adapter_M(lines), "-", ["?ga:p", "?ga:g"] + order + lst + order))
+                dist["colliding_names"] += 1
     return {
         "cases": cases,
         "exhaustive": False,
         "rule": ("RBAC (and RBAC with domains) allow-override models; random link sets over 5 names incl. cycles, diamonds and self-referential users, depth far "
                  "below the limit, random permissions, the configuration reached by a shuffled management history with a removal and re-add; then for every "
                  "name: implicit roles, implicit permissions, roles/users listings, the decision for every permission; implicit users per permission; then one "
-                 "of delete_user / delete_role / delete_permission / delete_permissions_for_user / delete_roles_for_user and everything again; plus every link set of <= 3 links over 3 names (quick: a sample) with every delete call. non-trivial = some implicit role set has >= 2 members"),
+                 "of delete_user / delete_role / delete_permission / delete_permissions_for_user / delete_roles_for_user and everything again; plus every link set of <= 3 links over 3 names (quick: a sample) with every delete call; plus link sets over names whose concatenations coincide, the decisions asked in both orders. non-trivial = some implicit role set has >= 2 members"),
         "distribution": dist,
     }
 
